@@ -318,7 +318,7 @@ func c11Conn(r *fw.R, alg string, udp bool, key string, secret int, prov bool) {
 // dns.Transfer.In (AXFR) over the scripted stream: tsigRequestMAC and tsigTimersOnly as kept by xfr.go
 
 func c11SpaceXfr(c *fw.Ctx) {
-	c.Space("xfr", "real dns.Transfer.In (AXFR, keys in the TsigSecret map or — every other case — behind Transfer.TsigProvider with a TsigSecret map of other secrets) over a scripted stream: the peer (reference model) answers the signed query with a chain of n = 1..4 envelopes (first over the query MAC with full variables, following over the previous MAC with timers only) × 5 algorithms × 2 secrets × position i < n × fault {none, one bit of an address flipped, one bit of the MAC flipped, removed, duplicated, swapped with i+1, TSIG stripped, signed in the wrong mode, signed over the query MAC again}: the envelopes delivered without error are exactly the prefix the reference accepts, and the transfer ends with an error iff the reference rejects an envelope or the stream ends before the closing SOA; non-trivial: every case", true,
+	c.Space("xfr", "real dns.Transfer.In (AXFR, keys in the TsigSecret map or — every other case — behind Transfer.TsigProvider with a TsigSecret map of other secrets) over a scripted stream: the peer (reference model) answers the signed query with a chain of n = 1..4 envelopes (first over the query MAC with full variables, following over the previous MAC with timers only) × 5 algorithms × 2 secrets × position i < n × fault {none, one bit of an address flipped, one bit of the MAC flipped, removed, duplicated, swapped with i+1, TSIG stripped, signed in the wrong mode, signed over the query MAC again, signed correctly with another key of the client's}: the envelopes delivered without error are exactly the prefix the reference accepts, and the transfer ends with an error iff the reference rejects an envelope or the stream ends before the closing SOA; non-trivial: every case", true,
 		func(emit func(func(*fw.R))) {
 			for _, alg := range c11Algs {
 				for secret := 0; secret < 2; secret++ {
@@ -336,9 +336,9 @@ func c11SpaceXfr(c *fw.Ctx) {
 		})
 }
 
-const c11NXfrFaults = 9
+const c11NXfrFaults = 10
 
-var c11XfrFaultNames = []string{"none", "address bit flipped", "MAC bit flipped", "removed", "duplicated", "swapped with next", "TSIG stripped", "signed in the wrong mode", "signed over the query MAC instead of the previous envelope's"}
+var c11XfrFaultNames = []string{"none", "address bit flipped", "MAC bit flipped", "removed", "duplicated", "swapped with next", "TSIG stripped", "signed in the wrong mode", "signed over the query MAC instead of the previous envelope's", "signed — in the right mode, over the right MAC — with another key the client knows"}
 
 func c11Xfr(r *fw.R, alg string, secret, n, pos, fault int, prov bool) {
 	r.Nontrivial()
@@ -436,6 +436,13 @@ func c11Xfr(r *fw.R, alg string, secret, n, pos, fault int, prov bool) {
 			if pos > 0 {
 				list[pos], _ = sign(pos, qmac, true)
 			}
+		case 9:
+			// RFC 8945 §5.3: a response is signed with the key of the request. Another key of the client's key ring, used
+			// correctly, is still another key (the running MAC does not bind the key).
+			rec2 := rec
+			rec2.Name = c11Labels(c11K2)
+			body, _ := c11Envelope(pos, n).Pack()
+			list[pos], _, _ = rt.Sign(body, rec2, raw[c11K2], prevMAC, pos > 0)
 		}
 		for _, e := range list {
 			var l [2]byte
@@ -484,8 +491,12 @@ func c11Xfr(r *fw.R, alg string, secret, n, pos, fault int, prov bool) {
 			wantErr = fmt.Sprintf("envelope %d: %s", i, why)
 			break
 		}
-		wantGood++
 		_, t, _ := rt.Split(e)
+		if rt.AlgName(t.Name) != rt.AlgName(c11Labels(c11K1)) {
+			wantErr = fmt.Sprintf("envelope %d: signed with the key %s, the request was signed with %s", i, rt.AlgName(t.Name), c11K1)
+			break
+		}
+		wantGood++
 		prev = t.MAC
 		if soaLast[i] {
 			break
